@@ -113,9 +113,48 @@ def synthetic_zones():
     z = T.TZif(2, [-2**59, d(1883, 11, 18) * 86400 + 17762, d(1990, 4, 1) * 86400, d(1990, 10, 28) * 86400], [1, 0, 2, 0],
                [(-18000, False, 4), (-17762, False, 0), (-14400, True, 8)], b'LMT\0EST\0EDT\0', b'EST5')
     out.append(Zone('syn/bigbang-other-type', T.write(z), 'synthetic'))
+    # the before-first-transition type: type 0 DST and unreferenced (zic designates type 0), type 0 DST and referenced
+    # (legacy files: search below the first transition's type / upwards for standard time), type 0 standard and referenced
+    d = C.day_num
+    base_t = [d(1945, 8, 14) * 86400 + 82800, d(1945, 9, 30) * 86400 + 21600, d(1967, 4, 30) * 86400 + 25200, d(1967, 10, 29) * 86400 + 21600]
+    ab = b'EWT\0EPT\0EST\0EDT\0'
+    tps = [(-14400, True, 0), (-14400, True, 4), (-18000, False, 8), (-14400, True, 12)]
+    for nm, idxs in (('type0-dst-unreferenced', [1, 2, 3, 2]), ('type0-dst-referenced-first', [0, 2, 3, 2]), ('type0-dst-referenced-later', [1, 2, 0, 2]),
+                     ('type0-dst-first-is-3', [3, 2, 0, 2])):
+        z = T.TZif(2, base_t, idxs, tps, ab, b'EST5EDT,M3.2.0,M11.1.0')
+        out.append(Zone('syn/' + nm, T.write(z), 'synthetic'))
+    z = T.TZif(2, base_t, [1, 0, 1, 0], [(-18000, False, 8), (-14400, True, 12)], ab, b'EST5EDT,M3.2.0,M11.1.0')
+    out.append(Zone('syn/type0-std-referenced', T.write(z), 'synthetic'))
+    z = T.TZif(2, base_t, [1, 2, 1, 2], [(-14400, True, 0), (-14400, True, 4), (-14400, True, 12)], ab, b'')
+    out.append(Zone('syn/all-types-dst', T.write(z), 'synthetic'))
     # only type, no transitions
     z = T.TZif(2, [], [], [(3600, False, 0)], b'CET\0', b'CET-1')
     out.append(Zone('syn/notrans', T.write(z), 'synthetic'))
+    return out
+
+
+def rule_family(rng, n):
+    """synthetic zones whose footers enumerate the boundary values of every date form (rotating by seed,
+    the leap-day boundaries J59/J60/J61 and n58/59/60 always)"""
+    always = [b'EST5EDT,J59/2,J305/2', b'EST5EDT,J60/2,J305/2', b'EST5EDT,J61/2,J305/2', b'EST5EDT,58/2,300/2', b'EST5EDT,59/2,300/2', b'EST5EDT,60/2,300/2',
+              b'AEST-10AEDT,J305/2,J60/3', b'EST5EDT,J1/0,J365/23', b'EST5EDT,0/0,365/0' if False else b'EST5EDT,0/1,364/23', b'CET-1CEST,M2.5.0,M3.1.0/3', b'CET-1CEST,M1.1.0/0,M12.5.6/23',
+              b'CET-1CEST,M2.4.3/25,M2.5.3/25', b'CET-1CEST,M3.5.0/-24,M10.5.0/-1', b'CET-1CEST,M12.5.0/26,M1.1.0/-2' if False else b'CET-1CEST,M3.1.1/167,M11.5.5/-100']
+    pool = []
+    for m in (1, 2, 3, 4, 6, 9, 10, 11, 12):
+        for w in (1, 2, 4, 5):
+            for wd in (0, 1, 3, 6):
+                pool.append(b'CET-1CEST,M%d.%d.%d/%d,M%d.%d.%d/%d' % (m if m < 7 else 3, w, wd, rng.choice([0, 1, 2, 24, 26]), m if m >= 7 else 10, rng.choice([1, 5]), (wd + 3) % 7, rng.choice([0, 3, 25, -1])))
+    for j in (1, 2, 31, 32, 58, 62, 90, 181, 182):
+        pool.append(b'EST5EDT,J%d/%d,J%d/%d' % (j, rng.choice([0, 2, 24]), rng.choice([200, 273, 304, 334, 365]), rng.choice([0, 2, 23])))
+        pool.append(b'EST5EDT,%d/%d,%d/%d' % (j, rng.choice([0, 2, 24]), rng.choice([200, 273, 304, 334, 365]), rng.choice([0, 2, 23])))
+    pick = always + rng.sample(pool, max(0, min(n - len(always), len(pool))))
+    out = []
+    for k, f in enumerate(pick):
+        try:
+            z = T.make_rule_zone(f, version=3, first_year=rng.choice([1996, 2000, 2023, 2037]), last_year=2037)
+        except AssertionError:
+            continue
+        out.append(Zone('rule/%02d-%s' % (k, f.decode()), T.write(z), 'synthetic'))
     return out
 
 
@@ -140,7 +179,7 @@ def corpus(rng, n_real=None):
                                               'America/Nuuk', 'Asia/Gaza', 'Pacific/Chatham', 'Antarctica/Troll')]
         rest = [z for z in real if z not in must]
         real = must + rng.sample(rest, max(0, n_real - len(must)))
-    return real + synthetic_zones()
+    return real + synthetic_zones() + rule_family(rng, 30 if n_real is not None else 120)
 
 
 def probe_instants(zone, rng, per_transition=3, n_random=60, shifts=True):
@@ -158,7 +197,10 @@ def probe_instants(zone, rng, per_transition=3, n_random=60, shifts=True):
         ts.update([times[0] - 1, times[0], times[-1] - 1, times[-1], times[-1] + 1])
     if zone.has_rule:
         ly = zone.last_year()
-        years = [ly, ly + 1, ly + 2, ly + 399, ly + 400, ly + 401, ly + 402] + rng.sample(range(ly, ly + 402), 12)
+        nl = ly + (-ly) % 4                       # next leap year (unless a non-400 century)
+        c100 = ly + (-ly) % 100; c400 = ly + (-ly) % 400
+        years = [ly, ly + 1, ly + 2, nl, nl + 4, c100, c100 + 100, c400, ly + 399, ly + 400, ly + 401] + rng.sample(range(ly, ly + 402), 10)
+        years = [y for y in years if ly <= y <= ly + 402]
         for y in years:
             for t in zone.rule_instants(y):
                 for k in (0, -1, 1):
